@@ -31,6 +31,12 @@ D2R = sp.pi / 180
 
 
 MUTANTS = [
+    ("clamp decided for the array as a whole", "AegeanTools/angle_tools.py",
+     "    factor = np.clip(factor, -1, 1)\n",
+     "    if np.any(np.abs(factor) >= 1):\n        factor = np.sign(factor)\n"
+     "    factor = np.clip(factor, -1, 1)\n", "C17-R11"),
+    ("arcsin of the unclamped sum", "AegeanTools/angle_tools.py",
+     "    factor = np.clip(factor, -1, 1)\n", "", "C17-R10"),
     ("RA seconds carried in milliseconds, printed with two decimals",
      "AegeanTools/angle_tools.py",
      "    total = int(round(x * 3600 * 100))\n"
@@ -128,6 +134,8 @@ def find_func(e, name):
 def run(ctx):
     prog = ctx.prog
     mod = prog.module("angle_tools")
+    r10_domain(ctx, prog)
+    r11_elementwise(ctx, prog)
     formulae(ctx, prog, {"R1": "C17-R1", "R2": "C17-R2", "R3": "C17-R3",
                          "R6": "C17-R6"})
     sexagesimal(ctx, prog, mod)
@@ -140,6 +148,133 @@ def run(ctx):
         "a dtype narrower than float64 is used", floor=8)
     r7_purity(ctx, prog, "C17-R7", ("gcd", "bear", "translate", "dist_rhumb",
                                     "bear_rhumb", "translate_rhumb"))
+
+
+def r11_elementwise(ctx, prog, rule="C17-R11"):
+    """scalar and array arguments give the same answers: no decision is
+    taken for an array as a whole"""
+    ctx.rule(rule, "scalar and array arguments agree: the formula functions "
+             "of angle_tools take no branch on a reduction of their data "
+             "(`if np.any(cond): x = f(x)` rewrites EVERY element when one "
+             "satisfies cond; the element-wise forms are np.where / np.clip "
+             "/ boolean-mask stores)")
+    mod = prog.module("angle_tools")
+    n = 0
+    for name in ("gcd", "bear", "translate", "dist_rhumb", "bear_rhumb",
+                 "translate_rhumb"):
+        if not prog.has_func("angle_tools." + name):
+            continue
+        fi = prog.func("angle_tools." + name)
+        n += 1
+        tainted = set(fi.params)
+        for _ in range(4):
+            for st in walk_no_nested(fi.node):
+                if isinstance(st, (ast.Assign, ast.AugAssign)) and \
+                        names_in(st.value) & tainted:
+                    for t in (st.targets if isinstance(st, ast.Assign)
+                              else [st.target]):
+                        tainted |= names_in(t)
+        bad = []
+        for st in walk_no_nested(fi.node):
+            if not isinstance(st, (ast.If, ast.While)):
+                continue
+            red = [c for c in ast.walk(st.test) if isinstance(c, ast.Call) and
+                   norm(c.func).split(".")[-1] in ("any", "all", "max", "min",
+                                                   "sum", "amax", "amin",
+                                                   "nanmax", "nanmin") and
+                   names_in(c) & tainted]
+            if red and any(isinstance(b, (ast.Assign, ast.AugAssign))
+                           for b in ast.walk(st)):
+                bad.append((st, red[0]))
+        ctx.check(rule, fi, "no whole-array decision in " + name, not bad,
+                  "`%s` decides from %s for the array as a whole and then "
+                  "rebinds values: for array arguments every element is "
+                  "changed when one qualifies, so the array call disagrees "
+                  "with the scalar calls" %
+                  ((norm(bad[0][0].test, 50), norm(bad[0][1], 40))
+                   if bad else ("", "")),
+                  node=bad[0][0] if bad else fi.node)
+    ctx.floor(rule, n, 3, "formula functions")
+
+
+def r10_domain(ctx, prog, rule="C17-R10"):
+    """arcsin / arccos are applied to clamped arguments"""
+    from ..core import expand_locals
+    ctx.rule(rule, "inverse trigonometric functions stay in their domain: "
+             "every arcsin / arccos of angle_tools is applied to an argument "
+             "clamped to [-1, 1] (np.clip(e, -1, 1), np.minimum(1, <non-"
+             "negative>), ...): a sum of sine / cosine products that is 1 "
+             "mathematically (end point on a pole, antipodal points) comes "
+             "out as 1.0000000000000002 and arcsin returns NaN")
+    mod = prog.module("angle_tools")
+    n = 0
+    for q, fi in sorted(prog.functions.items()):
+        if fi.module != mod.name:
+            continue
+        for c in walk_no_nested(fi.node):
+            if not (isinstance(c, ast.Call) and
+                    prog.dotted(mod, c.func) in ("numpy.arcsin",
+                                                 "numpy.arccos",
+                                                 "math.asin", "math.acos")
+                    and c.args):
+                continue
+            n += 1
+            a = c.args[0]
+            # the reaching value: the last assignment to the name before
+            # the call, in-place updates after it spoil the clamp
+            if isinstance(a, ast.Name):
+                later = [st for st in walk_no_nested(fi.node)
+                         if isinstance(st, (ast.Assign, ast.AugAssign)) and
+                         st.lineno < c.lineno and any(
+                             isinstance(t, ast.Name) and t.id == a.id
+                             for t in (st.targets if isinstance(
+                                 st, ast.Assign) else [st.target]))]
+                a = later[-1].value if later and isinstance(
+                    later[-1], ast.Assign) else a
+                if later and isinstance(later[-1], ast.AugAssign):
+                    a = later[-1]
+
+            def lim(e, which):
+                return isinstance(e, (ast.Constant, ast.UnaryOp)) and \
+                    norm(e).replace(" ", "") in (("1", "1.0") if which > 0
+                                                 else ("-1", "-1.0"))
+
+            def nonneg(e):
+                return isinstance(e, ast.Call) and \
+                    norm(e.func).split(".")[-1] in ("sqrt", "abs", "fabs",
+                                                    "hypot")
+
+            def clamped(e):
+                if not isinstance(e, ast.Call):
+                    return False
+                fn = norm(e.func).split(".")[-1]
+                if fn == "clip" and len(e.args) == 3:
+                    return lim(e.args[1], -1) and lim(e.args[2], +1)
+                if fn in ("minimum", "min", "fmin") and len(e.args) == 2:
+                    other = [x for x in e.args if not lim(x, +1)]
+                    if len(other) == 1:
+                        o = other[0]
+                        return nonneg(o) or (
+                            isinstance(o, ast.Call) and
+                            norm(o.func).split(".")[-1] in (
+                                "maximum", "max", "fmax") and
+                            any(lim(x, -1) for x in o.args))
+                if fn in ("maximum", "max", "fmax") and len(e.args) == 2:
+                    other = [x for x in e.args if not lim(x, -1)]
+                    return len(other) == 1 and isinstance(
+                        other[0], ast.Call) and \
+                        norm(other[0].func).split(".")[-1] in (
+                            "minimum", "min", "fmin") and \
+                        any(lim(x, +1) for x in other[0].args)
+                return False
+            ctx.check(rule, fi, "domain of %s" % norm(c, 60),
+                      isinstance(a, ast.expr) and clamped(a),
+                      "the argument %s is a rounded sum of products: it can "
+                      "exceed 1 in magnitude by one unit in the last place "
+                      "(e.g. translate(10, 82, 8, 0): the end point is the "
+                      "pole, the sum is 1.0000000000000002) and the result "
+                      "is NaN" % norm(a, 60), node=c)
+    ctx.floor(rule, n, 2, "arcsin / arccos calls in angle_tools")
 
 
 def _snapped(fi):
@@ -276,6 +411,13 @@ def formulae(ctx, prog, R):
         raise AnalysisError("%s: %s" % (R["R3"], e))
     if not (isinstance(E, tuple) and len(E) == 2):
         raise AnalysisError("C17-R3: translate does not return a pair")
+    # a clamp to [-1, 1] of a quantity that is a sine mathematically is the
+    # identity in exact arithmetic (it only absorbs rounding, see R10)
+    _clip = sp.Function("clip")
+    E = tuple(e.replace(lambda x: isinstance(x, sp.Function) and
+                        x.func.__name__ == "clip" and len(x.args) == 3 and
+                        x.args[1] == -1 and x.args[2] == 1,
+                        lambda x: x.args[0]) for e in E)
     ra_out, dec_out = E
     asn = [a for a in sp.preorder_traversal(dec_out)
            if isinstance(a, sp.asin)]
@@ -507,6 +649,70 @@ def sexagesimal(ctx, prog, mod, R4="C17-R4", R5="C17-R5"):
     ctx.check(R5, d2d, "sign of '-00:..' taken from the string", neg,
               "float('-00') is 0.0 and loses the sign: the leading '-' must "
               "be tested on the string", node=d2d.node)
+    # the arithmetic of the parser: D +- (M/60 + S/3600), minus exactly on
+    # the branch taken for a leading '-' (or a negative degrees field)
+    from ..core import expand_locals
+
+    class _P(sym.Translator):
+        def call(self, node):
+            if isinstance(node.func, ast.Name) and node.func.id == "float" \
+                    and len(node.args) == 1 and \
+                    isinstance(node.args[0], ast.Subscript) and \
+                    isinstance(node.args[0].slice, ast.Constant) and \
+                    isinstance(node.args[0].slice.value, int):
+                return sp.Symbol("f%d" % node.args[0].slice.value, real=True)
+            return super().call(node)
+    f0, f1, f2 = (sp.Symbol("f%d" % k, real=True) for k in range(3))
+    pmd = {}
+    for x_ in ast.walk(d2d.node):
+        for ch_ in ast.iter_child_nodes(x_):
+            pmd[ch_] = x_
+    rets = [r for r in walk_no_nested(d2d.node) if isinstance(r, ast.Return)
+            and r.value is not None]
+    nform = 0
+    for r in rets:
+        under_neg = False
+        cur = r
+        while cur in pmd:
+            par = pmd[cur]
+            if isinstance(par, ast.If) and cur in par.body:
+                t_ = expand_locals(d2d.node, par.test)
+                if any(isinstance(c, ast.Call) and
+                       isinstance(c.func, ast.Attribute) and
+                       c.func.attr == "startswith" for c in ast.walk(t_)):
+                    under_neg = True
+            cur = par
+        try:
+            val = _P(prog, mod, {}).expr(expand_locals(d2d.node, r.value))
+        except sym.Untranslatable as e:
+            raise AnalysisError("%s: value of dec2dec: %s" % (R5, e))
+        sgn = -1 if under_neg else 1
+        want = f0 + sgn * (f1 / 60 + f2 / 3600)
+        nform += 1
+        ctx.check(R5, d2d, "dec2dec %s branch = %s" %
+                  ("'-'" if under_neg else "positive", val),
+                  sp.simplify(val - want) == 0,
+                  "the parsed value must be D %s M/60 %s S/3600 on the "
+                  "branch for %s strings; found %s" %
+                  ("-" if under_neg else "+", "-" if under_neg else "+",
+                   "negative" if under_neg else "non-negative", val), node=r)
+    ctx.check(R5, d2d, "dec2dec has a '-' branch and a positive branch",
+              nform == 2 and len({bool(x) for x in (0, 1)}) == 2,
+              "expected two return formulae", node=d2d.node)
+    # the seconds field is optional:  'DD:MM'  is  'DD:MM:00'
+    opt = [st for st in walk_no_nested(d2d.node) if isinstance(st, ast.If)
+           and isinstance(st.test, ast.Compare) and
+           isinstance(st.test.ops[0], ast.Eq) and
+           norm(st.test.left).startswith("len(") and
+           norm(st.test.comparators[0]) == "2" and
+           any(isinstance(c, ast.Call) and isinstance(c.func, ast.Attribute)
+               and c.func.attr == "append" and c.args and
+               isinstance(c.args[0], ast.Constant) and
+               str(c.args[0].value).strip("0.") == ""
+               for b in st.body for c in ast.walk(b))]
+    ctx.check(R5, d2d, "two-field strings get a zero seconds field",
+              len(opt) == 1, "'DD:MM' must parse as 'DD:MM:00': a test "
+              "len(fields) == 2 appending '0' was expected", node=d2d.node)
     rep = any(isinstance(c, ast.Call) and isinstance(c.func, ast.Attribute)
               and c.func.attr == "replace" and len(c.args) == 2 and
               isinstance(c.args[0], ast.Constant) and c.args[0].value == ":"
